@@ -16,7 +16,7 @@ def opt_hex(s):
 
 
 def render_vars(vs):
-    return ";".join(sorted("%s=%s" % (hx(k), canon(v)) for k, v in vs.items()))
+    return ";".join(sorted("%s=%s" % (hx(k) if isinstance(k, str) else "?" + repr(k), canon(v)) for k, v in vs.items()))
 
 
 def err_info(st):
@@ -214,16 +214,16 @@ SIGS = {  # name -> (first?, [arg types...], variadic?)  -- only used to *genera
     "boom": (False, [], False), "vol": (False, [], False), "nocache": (False, [], False), "app": (False, ["str"], False),
     "attr1": (False, [], False), "attr2": (False, [], False), "getvar": (False, ["var"], False), "state_variable": (False, ["var"], False),
     "let": (False, ["var", "str"], False), "flag": (False, ["var", "bool"], False), "ns": (False, [], "ns"), "only": (False, [], False),
-    "sub": (False, ["query"], False), "zzz": (False, [], False),
+    "sub": (False, ["query"], False), "zzz": (False, [], False), "tnum": (False, [], False),
 }
-COMMON = ["add", "add", "cat", "cat", "ident", "argsc", "bo", "fl", "rep", "let", "getvar", "flag", "ns", "attr1", "attr2", "app", "state_variable", "only"]
+COMMON = ["tnum", "add", "add", "cat", "cat", "ident", "argsc", "bo", "fl", "rep", "let", "getvar", "flag", "ns", "attr1", "attr2", "app", "state_variable", "only"]
 SPECIAL = ["boom", "vol", "nocache", "zzz", "sub"]
 VARS = ["a", "b", "x", "flagged"]
 
 
 def g_action(rng, depth, first, special=0.12):
     if first:
-        name = rng.choice(["one", "one", "num", "hello", "vals", "vals"] + (["add", "ident", "cat"] if rng.random() < 0.08 else []))
+        name = rng.choice(["one", "one", "num", "hello", "vals", "vals"] + (["add", "ident", "cat", "tnum", "tnum"] if rng.random() < 0.12 else []))
     else:
         name = rng.choice(SPECIAL) if rng.random() < special else rng.choice(COMMON + (["one", "vals"] if rng.random() < 0.1 else []))
     isfirst, types, variadic = SIGS[name]
